@@ -1079,7 +1079,11 @@ def mutate_phase(ctx, rep, info, specs, recs, replay=False, ndirected=None):
         if spec['op'] == 'ar' and spec['side'] in 'lr' and PR.get('array_like') and 'M' in r and 'crash' not in r['M']:
             m = '__%s%s__' % ('r' if spec['side'] == 'r' else '', spec['o'])
             pr = (info.get('arith') or {}).get(m)
-            other_has_mask = spec['other']['k'] in ('ma_mask', 'spectrum', 'spectrum_nomc')
+            # the model describes the branch `newmask = self.mask` of the template: the other operand has no mask of its own, and the template runs at all
+            # (a numpy scalar on the LEFT is dispatched to the ufunc machinery, not to the reflected method)
+            other_has_mask = spec['other']['k'] in ('ma_mask', 'spectrum', 'spectrum_nomc') or (spec['side'] == 'r' and spec['other']['k'] == 'npfloat') \
+                or (spec['other']['k'] == 'ma_nomask' and spec['fs'].get('mask_corners', True) is False and not spec['fs'].get('mask') and not spec['fs'].get('fold'))
+            # (last case: numpy.ma.mask_or(all-False mask, nomask) shrinks to nomask and the constructor allocates a new mask)
             if pr is not None and (pr['copies'] or not other_has_mask):
                 pairs = PR.get('alias_pairs') or []
                 mr = (r['M'].get('mask') or {}).get('R') or {}
